@@ -260,7 +260,8 @@ func init() {
 		build: func(n *Node, _, _ []error) error {
 			return errors.UnimplementedError(errors.IssueLink{IssueURL: n.S[0].V, Detail: n.S[1].V}, n.S[2].V)
 		}})
-	def(LUnimplf, KindInfo{Slots: "SSN", Name: "errors.UnimplementedErrorf", Groups: GLib | GAnnot, Weight: 2,
+	// (the message of the f variant is a format argument not wrapped in Safe())
+	def(LUnimplf, KindInfo{Slots: "SSU", Name: "errors.UnimplementedErrorf", Groups: GLib | GAnnot, Weight: 2,
 		build: func(n *Node, _, _ []error) error {
 			return errors.UnimplementedErrorf(errors.IssueLink{IssueURL: n.S[0].V, Detail: n.S[1].V}, "%s", n.S[2].V)
 		}})
